@@ -697,6 +697,7 @@ pub fn run_c12(ctx: &mut Ctx, _known: &Known) {
             }
         }
     }
+    c12_history(ctx);
     for i in 0..n {
         let mut r = Rng::new(ctx.seed.wrapping_mul(613).wrapping_add(i as u64));
         let mut c = gen_case(&mut r, vec![0, 15, 10, 7], 5);
@@ -810,6 +811,86 @@ pub fn run_c12(ctx: &mut Ctx, _known: &Known) {
     }
 }
 
+/// (h) History independence, deterministically: every ordered pair of documents, matched one after
+/// the other on a brand-new thread, gets the verdicts the documents get in isolation — over the rule
+/// shapes that format, cast, count or cache something per evaluation (str()/int()/flt() casts over
+/// scalars and arrays, batched needles, regex sets, nested blocks over arrays, all()/of()), for one
+/// rule and for two different rules evaluated one after the other.
+fn c12_history(ctx: &mut Ctx) {
+    let bodies = [
+        "str(f): 443", "str(f): '44*'", "str(f): ['*43', 'x*']", "str(f): '?^44'", "str(f): 'i44*'",
+        "int(f): 443", "flt(f): '>=443'", "f: ['*43', '44*', '*4*']", "all(f): ['4*', '*3']", "of(f, 2): ['4*', '*3', '?4+']",
+        "f: '?^4.3$'", "f:\n      g: 443", "f:\n      str(g): '44*'", "str(f): ['?^44', '?3$']", "all(str(f)): ['4*', '*3']",
+        "str(f): 443443", "str(f): '*3443'",
+    ];
+    let docs_txt = [
+        "{f: [80, 443, 8080]}", "{f: 443}", "{f: [true, 443]}", "{f: 443443}", "{f: [1.5, 443]}", "{f: 44}", "{f: ['443']}",
+        "{f: '443'}", "{f: {g: 443}}", "{f: [{g: 80}, {g: 443}, {g: 1}]}", "{f: true}", "{f: 4.43}", "{f: []}", "{g: 1}",
+        "{f: [3, 443]}",
+    ];
+    let docs: Arc<Vec<Mapping>> = Arc::new(docs_txt.iter().map(|t| serde_yaml::from_str::<Mapping>(t).expect("doc")).collect());
+    let nd = docs.len();
+    let mut rules: Vec<(String, Arc<Rule>)> = vec![];
+    for b in bodies.iter() {
+        for cond in ["A", "not A"] {
+            let text = format!("detection:\n  A:\n    {}\n  condition: {}\ntrue_positives: []\ntrue_negatives: []\n", b, cond);
+            for mask in [0u64, 15] {
+                if let Ok(r) = Rule::from_str(&text) {
+                    let r = if mask == 0 { r } else { r.optimise(implside::opts(mask)) };
+                    rules.push((format!("{} [mask {}]", text, mask), Arc::new(r)));
+                }
+            }
+        }
+    }
+    let isolated = |rl: &Arc<Rule>, j: usize| -> Option<bool> {
+        let rl = Arc::clone(rl);
+        let ds = Arc::clone(&docs);
+        std::thread::spawn(move || rl.matches(&ds[j])).join().ok()
+    };
+    let dummy = |what: &str| Exchange { line: format!("history {}", what), imp: String::new(), model: String::new(), agree: true, supported: false };
+    let mut iso: Vec<Vec<Option<bool>>> = vec![];
+    for (_, rl) in rules.iter() {
+        iso.push((0..nd).map(|j| isolated(rl, j)).collect());
+    }
+    for (ri, (name, rl)) in rules.iter().enumerate() {
+        ctx.nontrivial.insert(hash_str(name));
+        // the rule that is evaluated first: the same rule, or the next one in the list
+        for other in [ri, (ri + 4) % rules.len()] {
+            let first_rule = Arc::clone(&rules[other].1);
+            let mut bad: Option<String> = None;
+            for a in 0..nd {
+                let r1 = Arc::clone(&first_rule);
+                let r2 = Arc::clone(rl);
+                let ds = Arc::clone(&docs);
+                let got = std::thread::spawn(move || {
+                    let mut out = vec![false; ds.len()];
+                    for b in 0..ds.len() {
+                        // d_a through the first rule, then d_b through the rule under test
+                        let _ = r1.matches(&ds[a]);
+                        out[b] = r2.matches(&ds[b]);
+                    }
+                    out
+                }).join();
+                ctx.evaluations += nd;
+                match got {
+                    Ok(out) => {
+                        for b in 0..nd {
+                            if Some(out[b]) != iso[ri][b] && bad.is_none() {
+                                bad = Some(format!("after {} (rule {}) the verdict on {} is {}, in isolation {:?}",
+                                    docs_txt[a], if other == ri { "itself".to_string() } else { trunc(&rules[other].0, 80) }, docs_txt[b], out[b], iso[ri][b]));
+                            }
+                        }
+                    }
+                    Err(_) => { bad = Some(format!("matching panicked after {}", docs_txt[a])); }
+                }
+            }
+            if let Some(msg) = bad {
+                ctx.violation("oracle", &format!("a verdict depends on what was matched before on the same thread: {}", msg), &dummy(&ri.to_string()), name, true);
+            }
+        }
+    }
+}
+
 // ------------------------------------------------------------------------------------ C14
 
 /// Loading from text and loading from the YAML value of that text agree: hand-written text whose
@@ -856,6 +937,13 @@ fn c14_text_vs_value(ctx: &mut Ctx) {
         }
         if merge == 2 {
             text.push_str("true_positives:\n- &d {f: bar}\ntrue_negatives:\n- f: bar\n- <<: *d\n  g: 1\n- !t {f: true}\n");
+        } else if merge == 3 {
+            // example lists written as null / left empty / missing: text and value must be read alike
+            let forms = ["true_positives: ~\n", "true_positives: null\n", "true_positives:\n", "true_positives: []\n", "", "true_positives: {}\n", "true_positives: x\n"];
+            let tp = *r.pick(&forms);
+            let tn = r.pick(&forms).replace("positives", "negatives");
+            text.push_str(tp);
+            text.push_str(&tn);
         } else {
             text.push_str("true_positives: []\ntrue_negatives:\n- f: bar\n- !t {f: true}\n");
         }
